@@ -625,6 +625,10 @@ class Machine:
                 n.kind, n.val, n.block, n.length = 'str', skey(sv_), None, 0
                 n.addr = new_addr() if len(args) >= 2 else (sv_[2] if len(sv_) > 2 and sv_[2] is not None else new_addr())
                 n.own = M.ledger.alloc('copied string %r' % n.val) if len(args) >= 2 else None
+                if n.own is not None:
+                    if not hasattr(M, 'str_owner'):
+                        M.str_owner = {}
+                    M.str_owner[n.own] = n
                 return n
             if name in ('SetNull', 'setNullImpl'):
                 M.call('destroy', n)
@@ -663,6 +667,18 @@ class Machine:
                 return dst
             dst = dst.p if isinstance(dst, MemberRef) else dst
             src = src.p if isinstance(src, MemberRef) else src
+            if isinstance(dst, tuple) and dst and dst[0] == 'const':
+                raise UndefinedBehaviour('%d byte(s) are stored into the character data of a constant string: the node only borrows them (caller memory, possibly read-only or shared with other documents)' % nbytes)
+            if isinstance(dst, tuple) and dst and dst[0] == 'strbuf' and chars_text(src) is not None:
+                # bytes written over the start of a string buffer the node owns
+                node_ = getattr(M, 'str_owner', {}).get(dst[1])
+                if node_ is None or node_.own != dst[1]:
+                    raise Unsupported('%s into a string buffer whose owner is not tracked' % name)
+                old_ = node_.val if isinstance(node_.val, str) else ''
+                if nbytes > len(old_):
+                    raise UndefinedBehaviour('%d bytes are stored into a string buffer of %d bytes' % (nbytes, len(old_)))
+                node_.val = chars_text(src)[:nbytes] + old_[nbytes:]
+                return dst
             if not (isinstance(dst, Ptr) and isinstance(src, Ptr)) or nbytes % 16:
                 raise Unsupported('%s(%r, %r, %r)' % (name, dst, src, nbytes))
             cnt = nbytes // 16
